@@ -247,16 +247,47 @@ def isSequential (indices : List Nat) : Bool := indices == List.range indices.le
 def parrecWhole (S : Nat) (indices : List Nat) : List Nat :=
   indices.flatMap (fun r => (List.range S).map (· + S * r))
 
-/-- `PARRECArrayProxy._get_unscaled(slicer)` (parrec.py:649-667); `idx = none` stands for the
-    literal `()` (the test is `slicer == ()`).  Output: shape and REC element numbers (F order). -/
+/-- `np.diff(indices)` on a 1-D integer vector -/
+def npDiff : List Nat → List Int
+  | a :: b :: rest => ((b : Int) - (a : Int)) :: npDiff (b :: rest)
+  | _ => []
+
+/-- the test of the `elif` in `_get_unscaled` AS WRITTEN (parrec.py:656):
+    `indices[0] != 0 or np.any(np.diff(indices) != 1)`; True = "can't load direct from REC file".
+    (`indices[0]` of an empty vector raises in Python; a PAR header always has at least one image
+    line and `shape[2] ≥ 1`, so the vector is never empty — the model says "fall back" there.)
+    Theorems `parrec_guard_exact` / `parrec_guard_from_source`: this is False exactly for
+    `[0, 1, …, K-1]`, `K ≥ 1`, and it is the expression found in the working tree. -/
+def parrecFallback (indices : List Nat) : Bool :=
+  indices.head? != some 0 || (npDiff indices).any (· != 1)
+
+/-- `PARRECArrayProxy._get_unscaled(slicer)` (parrec.py:649-667); `idx = []` stands for the
+    literal `()` (the test is `slicer == ()`).  Output: shape and REC element numbers (F order).
+    `indices` is whatever `header.get_sorted_slice_indices()` returned: a permutation of all REC
+    slices for a complete recording, a proper SUBSET (possibly ascending with holes) for a
+    truncated recording loaded with `permit_truncated=True`. -/
 def parrecUnscaled (h : Heuristic) (shape : List Nat) (isz S : Nat) (indices : List Nat)
     (idx : List IdxItem) : Except Err (List Nat × List Int) :=
   let whole := parrecWhole S indices
   if idx = [] then .ok (shape, whole.map Int.ofNat)
-  else if !(isSequential indices) then do
+  else if parrecFallback indices then do
     let r ← npIndex idx shape .F                              -- self._get_unscaled(())[slicer]
     pure (r.1, r.2.map (fun q => Int.ofNat (whole.getD q 0)))
   else fileslice h idx shape isz 0 (isz * shape.prod) .F
+
+/-! #### NumPy vocabulary of the expression translated from the source (Generated/C03Parrec.lean) -/
+namespace Np
+/-- `np.diff(v)` -/
+def diff : List Int → List Int
+  | a :: b :: rest => (b - a) :: diff (b :: rest)
+  | _ => []
+/-- `v[i]` for a constant integer `i` (negative = from the end); out of range: 0 (Python raises) -/
+def item (v : List Int) (i : Int) : Int :=
+  if i < 0 then (if i.natAbs ≤ v.length then v.getD (v.length - i.natAbs) 0 else 0) else v.getD i.toNat 0
+/-- `np.any(b)` / `np.all(b)` -/
+def any (b : List Bool) : Bool := b.any id
+def all (b : List Bool) : Bool := b.all id
+end Np
 
 /-- slot (sorted slice number) of the slope/intercept that `slopes[slicer]` pairs with each output
     element: `slopes` is the `(1, 1) + shape[2:]` array broadcast to `shape` (parrec.py:677-686) -/
